@@ -2,6 +2,7 @@ package smt
 
 import (
 	"bufio"
+	"sort"
 	"fmt"
 	"io"
 	"os"
@@ -21,6 +22,11 @@ type Solver struct {
 	sent    map[int]bool
 	timeout int // ms
 	Log     io.Writer
+
+	defs     map[int][]string // SMT-LIB lines that define term id (declare/define/assert)
+	curDef   int
+	IncrMs   int // timeout of the incremental attempt (ms); 0 = use timeout
+	NFresh   int // queries decided by the non-incremental fallback
 
 	// statistics
 	NSat, NUnsat, NUnknown int
@@ -159,10 +165,18 @@ func fpParams(s Sort) string {
 	return "11 53"
 }
 
+func (s *Solver) defLine(id int, line string) {
+	if s.defs == nil {
+		s.defs = map[int][]string{}
+	}
+	s.defs[id] = append(s.defs[id], line)
+	s.write(line)
+}
+
 func (s *Solver) define(t *Term) {
 	s.sent[t.ID] = true
 	if t.Op == OVar {
-		s.write(fmt.Sprintf("(declare-const %s %s)\n", t.Name, t.S))
+		s.defLine(t.ID, fmt.Sprintf("(declare-const %s %s)\n", t.Name, t.S))
 		return
 	}
 	args := make([]string, len(t.Args))
@@ -203,8 +217,8 @@ func (s *Solver) define(t *Term) {
 	case OFpToBits:
 		// fresh bit-vector constrained to denote the float
 		n := "t" + strconv.Itoa(t.ID)
-		s.write(fmt.Sprintf("(declare-const %s %s)\n", n, t.S))
-		s.write(fmt.Sprintf("(assert (= ((_ to_fp %s) %s) %s))\n", fpParams(t.Args[0].S), n, args[0]))
+		s.defLine(t.ID, fmt.Sprintf("(declare-const %s %s)\n", n, t.S))
+		s.defLine(t.ID, fmt.Sprintf("(assert (= ((_ to_fp %s) %s) %s))\n", fpParams(t.Args[0].S), n, args[0]))
 		return
 	case OUF:
 		key := -1 - len(s.sent)
@@ -215,7 +229,7 @@ func (s *Solver) define(t *Term) {
 			for _, a := range t.Args {
 				as = append(as, a.S.String())
 			}
-			s.write(fmt.Sprintf("(declare-fun %s (%s) %s)\n", t.Name, strings.Join(as, " "), t.S))
+			s.defLine(t.ID, fmt.Sprintf("(declare-fun %s (%s) %s)\n", t.Name, strings.Join(as, " "), t.S))
 		}
 		if len(args) == 0 {
 			body = t.Name
@@ -229,7 +243,137 @@ func (s *Solver) define(t *Term) {
 		}
 		body = fmt.Sprintf("(%s %s)", n, strings.Join(args, " "))
 	}
-	s.write(fmt.Sprintf("(define-fun t%d () %s %s)\n", t.ID, t.S, body))
+	s.defLine(t.ID, fmt.Sprintf("(define-fun t%d () %s %s)\n", t.ID, t.S, body))
+}
+
+// closure lists, in definition order, the ids of all terms the given terms depend on.
+func closure(ts []*Term) []int {
+	seen := map[int]bool{}
+	var ids []int
+	var walk func(t *Term)
+	walk = func(t *Term) {
+		if seen[t.ID] {
+			return
+		}
+		seen[t.ID] = true
+		for _, a := range t.Args {
+			walk(a)
+		}
+		ids = append(ids, t.ID)
+	}
+	for _, t := range ts {
+		walk(t)
+	}
+	sort.Ints(ids)
+	return ids
+}
+
+// checkFresh decides the query with a fresh, non-incremental solver process
+// (z3's incremental mode does not use its bit-blasting tactics and gives up on
+// multiplier/divider-heavy queries that the one-shot mode decides quickly).
+func (s *Solver) checkFresh(asserts []*Term, wantModel []*Term, kind string) (Result, []uint64) {
+	var sb strings.Builder
+	if kind == "cvc5" {
+		sb.WriteString("(set-logic ALL)\n(set-option :produce-models true)\n")
+	} else {
+		sb.WriteString(fmt.Sprintf("(set-option :timeout %d)\n", s.timeout))
+	}
+	ufDone := map[string]bool{}
+	for _, id := range closure(append(append([]*Term{}, asserts...), wantModel...)) {
+		for _, l := range s.defs[id] {
+			if strings.HasPrefix(l, "(declare-fun") {
+				if ufDone[l] {
+					continue
+				}
+				ufDone[l] = true
+			}
+			sb.WriteString(l)
+		}
+	}
+	// uninterpreted functions are declared under the id of their first use; make sure they exist
+	for _, ls := range s.defs {
+		for _, l := range ls {
+			if strings.HasPrefix(l, "(declare-fun") && !ufDone[l] {
+				ufDone[l] = true
+				sb.WriteString(l)
+			}
+		}
+	}
+	for _, a := range asserts {
+		if a.IsConst() {
+			continue
+		}
+		sb.WriteString("(assert " + s.ref(a) + ")\n")
+	}
+	sb.WriteString("(check-sat)\n")
+	if len(wantModel) > 0 {
+		var ms []string
+		for _, m := range wantModel {
+			ms = append(ms, s.ref(m))
+		}
+		for i := 0; i < len(ms); i += 64 {
+			j := min(i+64, len(ms))
+			sb.WriteString("(get-value (" + strings.Join(ms[i:j], " ") + "))\n")
+		}
+	}
+	var cmd *exec.Cmd
+	switch kind {
+	case "cvc5":
+		cmd = exec.Command("cvc5", "--lang=smt2", fmt.Sprintf("--tlimit=%d", s.timeout), "--solve-bv-as-int=sum")
+	case "z3-new":
+		cmd = exec.Command("z3-new", "-in", "-smt2")
+	default:
+		cmd = exec.Command("/usr/bin/z3", "-in", "-smt2")
+	}
+	cmd.Stdin = strings.NewReader(sb.String())
+	out, _ := cmd.Output()
+	txt := string(out)
+	if strings.Contains(txt, "(error") && !strings.HasPrefix(strings.TrimSpace(txt), "sat") && !strings.HasPrefix(strings.TrimSpace(txt), "unsat") {
+		s.LastErr = "fresh solver: " + strings.SplitN(txt, "\n", 2)[0]
+		return Unknown, nil
+	}
+	lines := strings.SplitN(strings.TrimSpace(txt), "\n", 2)
+	switch strings.TrimSpace(lines[0]) {
+	case "unsat":
+		return Unsat, nil
+	case "sat":
+		if len(wantModel) == 0 {
+			return Sat, nil
+		}
+		if len(lines) < 2 {
+			return Unknown, nil
+		}
+		var vals []uint64
+		rest := lines[1]
+		for i := 0; i < len(wantModel); i += 64 {
+			j := min(i+64, len(wantModel))
+			// one s-expression per get-value
+			depth, end := 0, -1
+			for k := 0; k < len(rest); k++ {
+				if rest[k] == '(' {
+					depth++
+				} else if rest[k] == ')' {
+					depth--
+					if depth == 0 {
+						end = k + 1
+						break
+					}
+				}
+			}
+			if end < 0 {
+				return Unknown, nil
+			}
+			vs, err := parseValues(rest[:end], j-i)
+			if err != nil {
+				s.LastErr = "fresh get-value parse: " + err.Error()
+				return Unknown, nil
+			}
+			vals = append(vals, vs...)
+			rest = rest[end:]
+		}
+		return Sat, vals
+	}
+	return Unknown, nil
 }
 
 var ufIDs = map[string]int{}
@@ -278,6 +422,31 @@ func (s *Solver) Check(asserts []*Term, wantModel []*Term) (Result, []uint64) {
 	mrefs := make([]string, len(wantModel))
 	for i, m := range wantModel {
 		mrefs[i] = s.ref(m)
+	}
+	hard := false
+	for _, a := range asserts {
+		if a.Hard {
+			hard = true
+		}
+	}
+	if hard {
+		// multiplier/divider/float content: z3's incremental core gives up where the
+		// one-shot tactics decide quickly; go non-incremental right away
+		for _, k := range []string{s.kind, "z3-new", "cvc5"} {
+			r2, v2 := s.checkFresh(asserts, wantModel, k)
+			if r2 != Unknown {
+				s.NFresh++
+				switch r2 {
+				case Sat:
+					s.NSat++
+				case Unsat:
+					s.NUnsat++
+				}
+				return r2, v2
+			}
+		}
+		s.NUnknown++
+		return Unknown, nil
 	}
 	var sb strings.Builder
 	sb.WriteString("(push 1)\n")
@@ -344,6 +513,20 @@ func (s *Solver) Check(asserts []*Term, wantModel []*Term) (Result, []uint64) {
 		}
 	}
 	s.write("(pop 1)\n")
+	if res == Unknown {
+		// non-incremental fallbacks: same solver one-shot, then the others
+		for _, k := range []string{s.kind, "z3-new", "cvc5"} {
+			if k == "cvc5" && hasFP(asserts) {
+				k = "cvc5"
+			}
+			r2, v2 := s.checkFresh(asserts, wantModel, k)
+			if r2 != Unknown {
+				res, vals = r2, v2
+				s.NFresh++
+				break
+			}
+		}
+	}
 	switch res {
 	case Sat:
 		s.NSat++
@@ -602,3 +785,5 @@ func (s *Solver) Enumerate(asserts []*Term, t *Term, max int) (vals []uint64, co
 		s.write("(assert (not (= " + tr + " " + constText(c) + ")))\n")
 	}
 }
+
+func hasFP(ts []*Term) bool { return false }
